@@ -37,7 +37,7 @@ TOTAL_BUDGET_S = {"quick": 420, "thorough": 3000}
 KINDS = ("0d", "scalar", "1d")
 
 PYREF = '''
-class Stub(fl.Defuzzifier):
+class _StubBody:
     def __init__(self, results): self.results = list(results); self.calls = 0
     def defuzzify(self, term, minimum, maximum):
         kind, vals = self.results[self.calls]; self.calls += 1
@@ -47,6 +47,11 @@ class Stub(fl.Defuzzifier):
         return np.array(vals, dtype=float)
     def parameters(self): return ""
     def configure(self, parameters): pass
+def Stub(results):
+    # the stub is a member of the family whose result kind it returns: 0-d arrays come from integral defuzzifiers, NumPy scalars from weighted ones
+    kinds = [k for k, _ in results if k not in ("raise", "clear")]
+    base = {"0d": fl.Centroid, "scalar": fl.WeightedAverage}.get(kinds[0] if kinds else None, fl.Defuzzifier)
+    return type("Stub", (_StubBody, base), {})(results)
 def isnan(v): return v != v
 def clip(v, lo, hi): return v if isnan(v) else min(max(v, lo), hi)
 def cascade(calls, recent, lock_previous, lock_range, default, lo, hi):
@@ -111,7 +116,7 @@ def oracle(calls, recent, lock_previous, lock_range, default, lo, hi):
 
 
 def make_stub(fl):
-    class Stub(fl.Defuzzifier):
+    class _StubBody:
         def __init__(self, results):
             self.results = list(results)
             self.calls = 0
@@ -132,6 +137,12 @@ def make_stub(fl):
 
         def configure(self, parameters):
             pass
+
+    def Stub(results):
+        # the stub is a member of the family whose result kind it returns (0-d arrays: integral defuzzifiers; NumPy scalars: weighted ones)
+        kinds = [k for k, _ in results if k not in ("raise", "clear")]
+        base = {"0d": fl.Centroid, "scalar": fl.WeightedAverage}.get(kinds[0] if kinds else None, fl.Defuzzifier)
+        return type("Stub", (_StubBody, base), {})(results)
 
     return Stub
 
